@@ -191,6 +191,23 @@ func (e *e2) run() {
 	if p.Strategy != "" {
 		s.SetStrategy(p.Strategy, p.StratArg)
 	}
+	for _, f := range p.Faults {
+		if f.Kind == 5 {
+			if s.BusyAt == nil {
+				s.BusyAt = map[int]bool{}
+			}
+			s.BusyAt[f.AtOp] = true
+		}
+	}
+	stmtBefore := DisarmStmtFault()
+	defer func() {
+		if n := DisarmStmtFault() - stmtBefore; n > 0 {
+			e.addFault("statement-failed", int(n))
+		}
+		if s.CommitBusyFired > 0 {
+			e.addFault("busy-before-commit(retry)", s.CommitBusyFired)
+		}
+	}()
 	s.Install()
 	defer Uninstall()
 
@@ -259,6 +276,10 @@ func (e *e2) run() {
 	if !v.Deadlock && !v.StepLimit {
 		v = s.Drain()
 	}
+	s.mu.Lock()
+	s.BusyAt = nil // the fault-injecting phase is over: teardown and the probes after it run fault-free
+	s.mu.Unlock()
+	DisarmStmtFault()
 	e.res.Stats.SimSeconds = time.Since(start).Seconds()
 	e.res.Stats.NonTrivial = s.Stats.Preemptions > 0
 	e.res.Stats.Shape = fmt.Sprintf("%016x", s.TraceHash())
@@ -430,7 +451,17 @@ func (e *e2) client(ti int) {
 		e.hist = append(e.hist, h)
 		e.mu.Unlock()
 		h.Call = e.seq.Add(1)
+		armed := false
+		for _, f := range e.p.Faults {
+			if f.Kind == 6 && f.AtOp == ti*100+i {
+				ArmStmtFault(1 + f.Offset)
+				armed = true
+			}
+		}
 		h.Res = e.execE2(&h.Op, ctx)
+		if armed {
+			DisarmStmtFault()
+		}
 		h.Ret = e.seq.Add(1)
 		h.Done = true
 		if op.Kind == "OpenHandle" && h.Res.Err == "" {
@@ -586,13 +617,15 @@ func (e *e2) judge() {
 
 // C04: CAS values are unique and increase in commit order.
 func (e *e2) judgeCas(hist []*HistEntry) {
-	var prev uint64 = 0
+	// per bucket: a CAS is drawn and committed under that bucket's mutex; between two buckets only the
+	// draws are ordered (which the uniqueness check below and the real-time check cover)
+	prevOf := map[string]uint64{}
 	for _, c := range e.commits {
-		if c.Cas <= prev {
-			e.violate([]string{"C04"}, "cas.commit-order", "transaction committed with CAS %d after a transaction with CAS %d had committed (CAS must increase in commit order)", c.Cas, prev)
+		if prev := prevOf[c.Bucket]; c.Cas <= prev {
+			e.violate([]string{"C04"}, "cas.commit-order", "transaction committed with CAS %d after a transaction of the same bucket with CAS %d had committed (CAS must increase in commit order)", c.Cas, prev)
 			return
 		}
-		prev = c.Cas
+		prevOf[c.Bucket] = c.Cas
 	}
 	for _, h := range hist {
 		if h.Res.Err == "" && h.Res.Cas != 0 && h.Res.NewCas != 0 && !isReadKind(h.Op.Kind) && h.Op.Kind != "Touch" && h.Op.Kind != "GetAndTouchRaw" && h.Res.Cas != h.Res.NewCas {
@@ -666,6 +699,11 @@ func (e *e2) judgeLinearizable(hist []*HistEntry) {
 			Init: func() interface{} { return init },
 			Step: func(state, input, output interface{}) (bool, interface{}) {
 				h := input.(*HistEntry)
+				if injectedFailure(&h.Res) {
+					// the call said it failed because of the injected statement failure: it must have
+					// changed nothing (what later reads return decides whether that is true)
+					return true, state
+				}
 				out := Step(state.(Doc), &h.Op, &h.Res, env)
 				if !out.OK {
 					return false, state
@@ -1033,4 +1071,20 @@ func (e *e2) judgeExpiryRace(hist []*HistEntry) {
 			e.probe("expiryrace.checked")
 		}
 	}
+}
+
+// injectedFailure: did the call fail with the error only the harness's statement authorizer produces?
+func injectedFailure(r *Res) bool {
+	if r.Err == "" {
+		return false
+	}
+	t := strings.ToLower(r.ErrText)
+	return strings.Contains(t, "not authorized") || strings.Contains(t, "is prohibited")
+}
+
+func (e *e2) addFault(kind string, n int) {
+	if e.res.Stats.Faults == nil {
+		e.res.Stats.Faults = map[string]int{}
+	}
+	e.res.Stats.Faults[kind] += n
 }
